@@ -287,6 +287,9 @@ func (f *impFn) expr(e ast.Expr, want *ity, c *ictx) (string, *ity) {
 		}
 		p.die(e, "unknown identifier %s", v.Name)
 	case *ast.SelectorExpr:
+		if id, ok := v.X.(*ast.Ident); ok && id.Name == "io" && f.lookup("io") == nil && (v.Sel.Name == "EOF" || v.Sel.Name == "ErrUnexpectedEOF") {
+			return "Err.sentinel \"io." + v.Sel.Name + "\"", tyErr
+		}
 		sv := f.saveFresh()
 		xs, xt := f.expr(v.X, nil, c)
 		f.restoreFresh(sv) // selecting a field does not copy the pointers of the other fields
@@ -328,6 +331,15 @@ func (f *impFn) expr(e ast.Expr, want *ity, c *ictx) (string, *ity) {
 		}
 		return "index " + parenImp(xs) + " " + parenImp(is), xt.elem
 	case *ast.SliceExpr:
+		if v.Low == nil && v.High != nil && v.Max == nil {
+			// x[:n]: the first n elements (n > cap(x) panics in Go: not modelled)
+			xs, xt := f.expr(v.X, nil, c)
+			ns, nt := f.expr(v.High, tyInt, c)
+			if xt.k != "slice" || nt.k != "int" {
+				p.die(e, "x[:n] on %v, %v", xt, nt)
+			}
+			return "List.take " + parenImp(ns) + ".toNat " + parenImp(xs), xt
+		}
 		if v.Low != nil || v.High != nil || v.Max != nil {
 			p.die(e, "slice expression with bounds")
 		}
